@@ -69,8 +69,8 @@ func c11RegprocRun(procs []*C11Proc, c c11RegprocCase) (classes []string, nontri
 			}
 		}
 	})
-	if o.Hung {
-		return []string{"hung"}, true, o, nil
+	if o.Hung || o.Inconclusive {
+		return []string{"gave-up-waiting"}, true, o, nil
 	}
 	sent = pr.Sender.Take()
 	if len(sent) > 0 {
